@@ -5,11 +5,13 @@
    numerals) — C18_literal_shapes_le4; the plain text form nests brackets according to the shape (1-D: the elements;
    n-D: the text forms of the leading slabs); the pretty form has exactly the same content once spaces and line breaks
    are removed.
+   pairs, triples and lists of any length survive the round trip through their text form "(a, b, c)" / "[a, b, c]"
+   whenever no component contains a comma and the first / last component does not begin / end with the enclosing
+   bracket (C18_tuple_roundtrip, C18_list_roundtrip; components may be empty or contain spaces).
    PARTIAL: the unbounded literal theorem (all ranks / lengths / atoms) is not proved; char / String / Tuple / List
-   literal arms and the Tuple / List text round trips are checked by the correspondence run only (generated program
-   with 781 literals; text round trips on an atom pool).  OPEN FINDING F19: String literals containing ',' '[' ']'
+   literal arms are checked by the correspondence run only (generated program with 781 literals).  OPEN FINDING F19: String literals containing ',' '[' ']'
    are mis-parsed (the macro cuts the {:?} text on those characters). *)
-From ArrRs Require Import Index Axis Str Text Text_proofs.
+From ArrRs Require Import Index Axis Str Text Text_proofs Tuple_proofs.
 
 Theorem C18_literal_shapes_le4 : forall sh, In sh literal_shapes ->
   parse_literal (dbg (Node [full_tree sh numeral 0])) = Ok (mk (map numeral (seq 0 (prod sh))) sh).
@@ -30,6 +32,23 @@ Proof. exact display_nest_nd. Qed.
 Theorem C18_pretty : forall sh es prefix,
   no_layout (build_string sh es true prefix) = no_layout (build_string sh es false prefix).
 Proof. exact pretty_same_content. Qed.
+
+Theorem C18_tuple_roundtrip : forall l : list str, l <> [] -> Forall no_comma l ->
+  first_ok (Z.eqb lpar) (join_with [comma; space] l) -> first_ok (Z.eqb rpar) (rev (join_with [comma; space] l)) ->
+  parse_tuple (show_tuple l) = l.
+Proof. exact tuple_roundtrip. Qed.
+
+Theorem C18_list_roundtrip : forall l : list str, l <> [] -> Forall no_comma l ->
+  first_ok (fun c => (c =? lpar) || (c =? lbr))%Z (join_with [comma; space] l) ->
+  first_ok (fun c => (c =? rpar) || (c =? rbr))%Z (rev (join_with [comma; space] l)) ->
+  parse_list (show_list l) = l.
+Proof. exact list_roundtrip. Qed.
+
+Example C18_roundtrip_nonvacuous :
+  let l := [[49]; [32; 120; 32]; []; [45; 50]]%Z in
+  l <> [] /\ Forall no_comma l /\ first_ok (Z.eqb lpar) (join_with [comma; space] l) /\
+  first_ok (Z.eqb rpar) (rev (join_with [comma; space] l)) /\ parse_tuple (show_tuple l) = l.
+Proof. cbn zeta. repeat split; try discriminate; try (vm_compute; reflexivity); repeat constructor; discriminate. Qed.
 
 Example C18_nonvacuous :
   In [2;3;4] literal_shapes /\
